@@ -62,7 +62,7 @@ import collections
 NT = collections.namedtuple('NT', ['w', 'b'])     # a generic registered pytree whose field order is not key order
 
 
-def build_real(heap, nnx, mods, vts, reverse_dicts=False):
+def build_real(heap, nnx, mods, vts, reverse_dicts=False, explicit_tag=False):
   """heap: list of objects (1-based ids in slots).  Returns (root, objs by id)."""
   objs = {}
 
@@ -75,7 +75,7 @@ def build_real(heap, nnx, mods, vts, reverse_dicts=False):
     o = heap[i - 1]
     k = o['k']
     if k in vts:
-      kw = {'tag': 'm1'} if o['meta'] else {}
+      kw = {'tag': 'm1'} if o['meta'] else ({'tag': 'm0'} if explicit_tag else {})
       objs[i] = vts[k](np.asarray(o['val'], np.int32), **kw)
       return objs[i]
     if k in mods:
